@@ -3,6 +3,7 @@ package main
 import (
 	"fmt"
 	"go/types"
+	"strings"
 
 	"golang.org/x/tools/go/ssa"
 )
@@ -109,6 +110,7 @@ func runC02(c *Ctx) {
 	c.checkProxyPollsProvenance()
 	c.checkRegistration()
 	c.checkBridgeListReplaced()
+	c.checkBridgeLookup()
 	c.verbatimResult("O-8 session ids and answers are used verbatim", "common/messages", "DecodeProxyPollRequestWithRelayPrefix", 0, "Sid")
 	c.verbatimResult("O-8 session ids and answers are used verbatim", "common/messages", "DecodeAnswerRequest", 1, "Sid")
 	c.verbatimResult("O-8 session ids and answers are used verbatim", "common/messages", "DecodeAnswerRequest", 0, "Answer")
@@ -709,4 +711,57 @@ func conditionalStore(fn *ssa.Function, st *ssa.Store) []*ssa.BasicBlock {
 		}
 	}
 	return nil
+}
+
+// checkBridgeLookup: GetBridgeInfo succeeds only for a fingerprint present in
+// the map, looked up by its parameter.
+func (c *Ctx) checkBridgeLookup() {
+	p := c.P
+	rule := "O-6b bridge lookup succeeds only for listed fingerprints"
+	fn := p.Fn("broker", "(*bridgeListHolder).GetBridgeInfo")
+	if fn == nil {
+		c.undecided(rule, "bridgeListHolder.GetBridgeInfo", "-", "anchor does not resolve")
+		return
+	}
+	c.analysedFn(p.FnName(fn))
+	var lk *ssa.Lookup
+	allInstrs(fn, func(in ssa.Instruction) {
+		if l, ok := in.(*ssa.Lookup); ok && l.CommaOk && l.Index == ssa.Value(fn.Params[1]) {
+			if _, f, okf := fieldLoad(l.X); okf && f.Name() == "bridgeInfo" {
+				lk = l
+			}
+		}
+	})
+	if lk == nil {
+		c.viol(rule, "GetBridgeInfo looks its parameter up in bridgeInfo", p.Pos(fn.Pos()), "no comma-ok lookup of the fingerprint parameter in the bridge map")
+		return
+	}
+	found := boolEdges(fn, true, func(v ssa.Value) bool {
+		e, ok := v.(*ssa.Extract)
+		return ok && e.Tuple == ssa.Value(lk) && e.Index == 1
+	})
+	n := 0
+	for _, r := range returnsOf(fn) {
+		if !mayBeNil(retVal(r, 1)) {
+			continue
+		}
+		n++
+		path := reachableWithout(fn, r, found)
+		okVal := flows(retVal(r, 0), func(v ssa.Value) bool { e, ok := v.(*ssa.Extract); return ok && e.Tuple == ssa.Value(lk) && e.Index == 0 })
+		c.check(len(found) > 0 && path == nil && okVal, rule, "GetBridgeInfo returns success only with the entry found for its parameter", p.instrPos(r), "",
+			"a nil-error return does not depend on the fingerprint having been found (or returns another entry): a client naming an unlisted bridge is matched", p.pathString(path)...)
+	}
+	if n == 0 {
+		c.undecided(rule, "GetBridgeInfo success return", p.Pos(fn.Pos()), "none found")
+	}
+	// BrokerContext.GetBridgeInfo forwards
+	if fw := p.Fn("broker", "(*BrokerContext).GetBridgeInfo"); fw != nil {
+		ok := false
+		for _, r := range returnsOf(fw) {
+			if cc, _, okc := callResult(retVal(r, 0)); okc && strings.HasSuffix(calleeName(cc), ").GetBridgeInfo") && cc.Call.Args[len(cc.Call.Args)-1] == ssa.Value(fw.Params[1]) {
+				ok = true
+			}
+		}
+		c.check(ok, rule, "BrokerContext.GetBridgeInfo forwards to the bridge list with its parameter", p.Pos(fw.Pos()), "", "the context's lookup is not a plain forward")
+	}
 }
